@@ -13,6 +13,7 @@ import z3
 from sx import inv as I
 from sx.graph import SymDiGraph
 from sx.maps import LazyIdMap
+from sx.rt import reraise_model_gap  # noqa: F401
 from sx.rt import (And, Implies, Not, Or, SBool, SInt, Unsupported, count, int_shim, same_value, toint,
                    unwrap, zb)
 
@@ -382,6 +383,7 @@ def perform(ctx, p, cfg, sfx=""):
     except Unsupported:
         raise
     except Exception as e:  # refused
+        reraise_model_gap(e)
         return None, e, named, args
     return act, None, named, args
 
@@ -562,6 +564,7 @@ def harness(ctx, cfg):
         except Unsupported:
             raise
         except Exception as e:
+            reraise_model_gap(e)
             ctx.tag(f"inverse_raised:{type(e).__name__}")
             ctx.env.update(inverse_exc=type(e).__name__)
             if want("C01"):
@@ -586,6 +589,7 @@ def harness(ctx, cfg):
             except Unsupported:
                 raise
             except Exception as e:
+                reraise_model_gap(e)
                 ctx.tag(f"second_inverse_raised:{type(e).__name__}")
                 if want("C01"):
                     ctx.oblige("C01.inverse_applies_again", False, "C01")
@@ -697,6 +701,7 @@ def followup(ctx, p, cfg, S, k, after):
         except Unsupported:
             raise
         except Exception as e:
+            reraise_model_gap(e)
             ctx.tag(f"followup:inverse_raised:{type(e).__name__}")
             ctx.oblige("C01.second_edit_inverse_applies", False, "C01")
             return True
